@@ -136,7 +136,7 @@ def scenario(ctx, ver, want, *, extras, cutmode, seed, stale_first, v2_split, ri
                     tr.feed(landev.v3_enc_packet(s["key"], landev.v2_wrap(ac.stale, devid), s["ctr"]))
                 else:
                     tr.feed(landev.v2_wrap(ac.stale, devid))
-            apply_state(AC, a, want)
+            apply_state(AC, a, want, rng)
             ac.plan = extras
             n0 = len(ac.rx_frames)
             await a.apply()
